@@ -1,0 +1,17 @@
+//go:build verif
+
+package dht
+
+// Hooks for the verification harness in /verif (property C17). Compiled only with -tags verif;
+// add-only: thin wrappers exposing the unexported helpers of security.go.
+
+import "net"
+
+// VerifCrcIP exposes crcIP.
+func VerifCrcIP(ip net.IP, rand uint8) uint32 { return crcIP(ip, rand) }
+
+// VerifMaskForIP exposes maskForIP.
+func VerifMaskForIP(ip net.IP) []byte { return maskForIP(ip) }
+
+// VerifIsLocalNetwork exposes isLocalNetwork.
+func VerifIsLocalNetwork(ip net.IP) bool { return isLocalNetwork(ip) }
